@@ -167,13 +167,3 @@ Definition C08_holds (cfg : config) (ops : list op) (obs : list opobs) : Prop :=
   holds_from cfg [] ops obs.
 Definition prop_code (cfg : config) (ops : list op) (obs : list opobs) : Z :=
   code_from cfg [] ops obs.
-
-(* ---------------------------------------------------------------- hypotheses *)
-(* every metric report carries Status.UpdateTime (koordlet always sets it).  A report without
-   it keeps the previous updateTime in the cache, see c08_sticky_update_time_refuted. *)
-Definition op_timed (o : op) : bool :=
-  match o with
-  | OMetric _ _ m => is_some (m_ut m)
-  | _ => true
-  end.
-Definition ops_timed (ops : list op) : bool := forallb op_timed ops.
